@@ -455,13 +455,16 @@ pub fn check_event(ev: &Event, st: &mut Stats, out: &mut Vec<Viol>) {
                     st.count("c13_auto_growth");
                     let len_at_growth = post.len.saturating_sub(1);
                     let want = (ev.fresh_cap)((2 * len_at_growth).max(1));
+                    // automatic growth must be as transparent as the explicit capacity operations: everything that was not
+                    // replaced or evicted is still there with the same identity and recorded size, in the same relative order
+                    let tid = insert_target.unwrap_or(u32::MAX);
+                    let want_rest: Vec<_> = pre.logical().into_iter().filter(|x| x.0 != tid && post.has(x.0)).collect();
+                    let got_rest: Vec<_> = post.logical().into_iter().filter(|x| x.0 != tid).collect();
+                    if want_rest != got_rest { v(out, "C13", "growth-not-transparent", format!("{}: automatic growth changed the other entries: before {:?}, after {:?}", op.to_text(), want_rest.iter().map(|x| (x.0, x.3)).collect::<Vec<_>>(), got_rest.iter().map(|x| (x.0, x.3)).collect::<Vec<_>>())); }
                     if post.cap != want { v(out, "C13", "growth-target", format!("{}: automatic growth took capacity from {} to {} with {} entries held; the smallest table for twice that holds {}", op.to_text(), pre.cap, post.cap, len_at_growth, want)); }
                 }
             }
-            _ => {
-                // every other operation leaves the table where it is
-                if post.buckets != pre.buckets && !matches!(op, Op::Clear | Op::Iterate { .. }) { v(out, "C13", "unexpected-rebuild", format!("{} changed the table size from {} to {} buckets", op.to_text(), pre.buckets, post.buckets)); }
-            }
+            _ => {}
         }
     }
 
